@@ -30,14 +30,14 @@ FLOORS = {
                            "fragment_through_filter": 10, "plain_tilde_fragment": 8,
                            "local_autoescape_block_renders": 500,
                            "loop_exit_through_inner_autoescape_block": 25,
-                           "evalctx_filter_by_name_via_map": 10}},
+                           "evalctx_filter_by_name_via_map": 10, "fragment_as_join_delimiter": 10}},
     "thorough": {"evaluations": 50000, "distinct": 6000,
                  "counters": {"outputs_with_entities": 16000, "via_macro": 2000, "via_setblock": 1000,
                               "via_super_or_self": 2000, "via_include": 2000, "via_import_macro": 1000,
                               "fragment_through_filter": 600, "plain_tilde_fragment": 600,
                               "local_autoescape_block_renders": 10000,
                               "loop_exit_through_inner_autoescape_block": 1200,
-                              "evalctx_filter_by_name_via_map": 400}},
+                              "evalctx_filter_by_name_via_map": 400, "fragment_as_join_delimiter": 400}},
 }
 
 # every value has a raw metacharacter (over-escaping shows) AND entity-like text
@@ -232,6 +232,8 @@ def feature_counters(ctx, case):
         ctx.count("plain_tilde_fragment")
     if "|map('join'" in allsrc:
         ctx.count("evalctx_filter_by_name_via_map")
+    if "'&amp;']|join(" in allsrc:
+        ctx.count("fragment_as_join_delimiter")
 
 
 def run(ctx):
